@@ -61,6 +61,9 @@ class Gen:
         if c < 0.9 and handles:
             h = r.choice(sorted(handles))
             return handles[h] + r.choice(['t1', 'x/y', 'T', 'caf' + E9, 'a%b', 'q!r']), 'handle'
+        if r.random() < 0.35:
+            # a tag under a prefix that some documents of the stream abbreviate with a handle and others do not
+            return r.choice(['tag:example.com,2000:', 'tag:' + E9 + 'x.org,2000:', '!my-', '!loc/', 'tag:other.org,2002:']) + r.choice(['t1', 'x/y', 'T', 'str']), 'handle_prefix_without_handle'
         return 'tag:example.org,2011:' + r.choice(['a', 'b/c', 'd.e', 'caf' + E9, chr(0x4e2d) + chr(0x1F600), 'x y', 'p%q', 'a#b', '[z]' if r.random() < 0.3 else 'z', '{w}' if r.random() < 0.3 else 'w', 'u!v']), 'uri'
 
     def anchor(self):
